@@ -133,6 +133,12 @@ Section Impl.
 
   (* NewCollection: one clock reading per initial record (map iteration order is irrelevant for
      a clock whose readings the harness keeps equal during construction) *)
+  (* NewCollection(WithInitialRecord(id, v) ...): every record is stored under the id as given (the
+     id interceptor is NOT applied by the constructor) with the construction-time clock reading;
+     WithInitialRecord panics on a repeated id, so [records] has distinct ids.  The harness freezes
+     its clock during construction, so the readings are all [clock_at 0] and none is consumed. *)
+  Definition c_new (records : list (string * M)) : cstate :=
+    mkC (fold_left (fun l p => insert (fst p) (mkItem (snd p) (clock_at 0)) l) records []) 0.
 
   Definition c_get (s : cstate) (id : string) (mask : option rmask) : option M :=
     match lookup (apply_id id) (c_items s) with
